@@ -968,7 +968,7 @@ where
             match message[0] as char {
                 // Query
                 'Q' => {
-                    if query_router.query_parser_enabled() {
+                    if query_router.statement_parsing_enabled() {
                         match query_router.parse(&message) {
                             Ok(ast) => {
                                 let plugin_result = query_router.execute_plugins(&ast).await;
@@ -987,7 +987,9 @@ where
                                     _ => (),
                                 };
 
-                                let _ = query_router.infer(&ast);
+                                if query_router.query_parser_enabled() {
+                                    let _ = query_router.infer(&ast);
+                                }
 
                                 initial_parsed_ast = Some(ast);
                             }
@@ -1010,7 +1012,7 @@ where
                 // to when we get the S message
                 // Parse
                 'P' => {
-                    if query_router.query_parser_enabled() {
+                    if query_router.statement_parsing_enabled() {
                         match query_router.parse(&message) {
                             Ok(ast) => {
                                 if let Ok(output) = query_router.execute_plugins(&ast).await {
@@ -1023,7 +1025,9 @@ where
                                     }
                                 }
 
-                                let _ = query_router.infer(&ast);
+                                if query_router.query_parser_enabled() {
+                                    let _ = query_router.infer(&ast);
+                                }
                             }
                             Err(error) => {
                                 warn!(
@@ -1259,7 +1263,7 @@ where
                 match code {
                     // Query
                     'Q' => {
-                        if query_router.query_parser_enabled() {
+                        if query_router.statement_parsing_enabled() {
                             // We don't want to parse again if we already parsed it as the initial message
                             let ast = match initial_parsed_ast {
                                 Some(_) => Some(initial_parsed_ast.take().unwrap()),
@@ -1335,7 +1339,7 @@ where
                     // Parse
                     // The query with placeholders is here, e.g. `SELECT * FROM users WHERE email = $1 AND active = $2`.
                     'P' => {
-                        if query_router.query_parser_enabled() {
+                        if query_router.statement_parsing_enabled() {
                             if let Ok(ast) = query_router.parse(&message) {
                                 if let Ok(output) = query_router.execute_plugins(&ast).await {
                                     // A verdict against an earlier Parse of this batch stands until Sync.
